@@ -142,7 +142,7 @@ PROPS["C02"] = dict(
     assumptions=["the adversary cannot forge AEAD tags", "channel-level checks use real timers with rekey interval ~150 ms"],
     subs=[
         R("C02.session_dolev_yao", "ke", "TestC02Session", 5000, 80000, steps=40),
-        R("C02.session_concurrent_send", "ke", "TestC02SessionConcurrentSend", 60, 3000),
+        R("C02.session_concurrent_send", "ke", "TestC02SessionConcurrentSend", 400, 20000),
         R("C02.channel_rotation", "kechan", "TestC02ChannelRotation", 16, 600, shrink=5, quick=dict(checks=16, shards=4, timeout=600)),
         R("C02.concurrent_send", "kechan", "TestC02ConcurrentSend", 40, 1500, shrink=5, quick=dict(checks=40, shards=2, timeout=600)),
         R("C02.swarm_burst", "swarms", "TestC02SwarmBurst", 120, 6000, quick=dict(shards=2, timeout=600)),
@@ -229,6 +229,7 @@ PROPS["C10"] = dict(
         R("C10.fragswarm", "swarms", "TestC10Frag", 1500, 30000),
         R("C10.mbapp", "swarms", "TestC10Mbapp", 1000, 25000, quick=dict(checks=1000, shards=2, timeout=600)),
         R("C10.mbapp_reply_vs_tell", "swarms", "TestC10MbappBidi", 120, 6000, quick=dict(checks=120, shards=2, timeout=600)),
+        P("C10.two_message_interleavings", "swarms", "TestC10Exhaustive"),
         R("C10.slow_gc_epochs", "swarms", "TestC10SlowEpochs", 1, 8, shrink=0, quick=dict(skip=True), thorough=dict(timeout=1200)),
     ],
 )
